@@ -108,7 +108,10 @@ func newStringAdditionalProperties(r schema.RuleASTNode) *AdditionalProperties {
 		return &AdditionalProperties{mode: additionalPropertiesObject}
 	}
 
-	if r.Value == internal.StringAny {
+	if r.Value == internal.StringAny || r.Value == internal.StringEnum ||
+		r.Value == string(schema.SchemaTypeMixed) || r.Value == string(schema.SchemaTypeComment) {
+		// There is no way to describe these types without additional rules,
+		// so any value is allowed.
 		return nil
 	}
 
